@@ -19,7 +19,7 @@ import (
 type c05Case struct {
 	Kind    string `json:"kind"`
 	Spacing [6]int `json:"spacing"` // Before1, After1, Before2, After2, Before3, After3 (0 None, 1 NewLine, 2 EmptyLine)
-	Decs    [6]int `json:"decs"`    // Start1, End1, ... (0 none, 1 line comment, 2 "\n", 3 block comment)
+	Decs    [6]int `json:"decs"`    // Start1, End1, ... (0 none, 1 line comment, 2 "\n", 3 block comment, 4 two line comments, 5 line comment + "\n" + line comment)
 }
 
 var c05Kinds = []string{"stmt", "decl", "spec", "field", "method", "clause", "arg", "elt", "rawarg", "rawelt", "rawstmt", "pathelt", "patharg", "casebody", "commbody", "blocks", "importspec", "param", "typeparam"}
@@ -271,16 +271,20 @@ func (l *ledger) dec(d string) {
 	}
 }
 
-func c05Dec(code, serial int) string {
+func c05Dec(code, serial int) []string {
 	switch code {
 	case 1:
-		return fmt.Sprintf("// s%d", serial)
+		return []string{fmt.Sprintf("// s%d", serial)}
 	case 2:
-		return "\n"
+		return []string{"\n"}
 	case 3:
-		return fmt.Sprintf("/*s%d*/", serial)
+		return []string{fmt.Sprintf("/*s%d*/", serial)}
+	case 4: // two line comments in one list
+		return []string{fmt.Sprintf("// s%d", serial), fmt.Sprintf("// t%d", serial)}
+	case 5: // a line comment, an empty line, a line comment
+		return []string{fmt.Sprintf("// s%d", serial), "\n", fmt.Sprintf("// t%d", serial)}
 	}
-	return ""
+	return nil
 }
 
 func init() {
@@ -288,7 +292,7 @@ func init() {
 		ID:    "C05",
 		Level: "model_checking",
 		Rule: "19 list kinds (import specs, function parameters and type parameters, statements, statement lists of case and comm clauses and of function bodies whose elements include bare block statements, declarations, specs, struct fields, interface methods, case clauses, call arguments, composite elements, and arguments / elements / statements ending in multi-line raw strings that contain empty lines, and arguments / elements that are package-qualified identifiers printed with import management) x all 3^6 None/NewLine/EmptyLine assignments to Before/After of 3 elements " +
-			"x every assignment of {none, line comment, newline, block comment} to the 6 Start/End points with <=2 (quick) / <=3 (thorough) non-empty, on hand-built trees; " +
+			"x every assignment of {none, line comment, newline, block comment} to the 6 Start/End points with <=2 (quick) / <=3 (thorough) non-empty, plus lists of several entries (two line comments; line comment, empty line, line comment) at one point (thorough: combined with the others), on hand-built trees; " +
 			"oracle: print == gofmt(text rendered by the non-additive line-break ledger) and, for own-line kinds without decorations, one blank line between neighbours iff After or Before is EmptyLine; " +
 			"state = (kind, spacing vector, decoration vector); non-trivial = any spacing/decoration set",
 		Assumptions: []string{"both sides are normalised by go/format, so go/printer's own layout rules are not modelled"},
@@ -319,6 +323,18 @@ func init() {
 					for c := 1; c <= 3; c++ {
 						cur[i] = c
 						rec(i+1, cur, n+1)
+					}
+					// lists of several entries (two line comments; line comment, empty line, line comment): quick tier
+					// one such list and nothing else, thorough tier like any other entry
+					if n == 0 || ctx.Thorough() {
+						for c := 4; c <= 5; c++ {
+							cur[i] = c
+							if ctx.Thorough() {
+								rec(i+1, cur, n+1)
+							} else {
+								rec(i+1, cur, maxDecs)
+							}
+						}
 					}
 				}
 			}
@@ -371,16 +387,20 @@ func c05Check(cs c05Case) core.Outcome {
 		nd.Before = dst.SpaceType(cs.Spacing[2*i])
 		nd.After = dst.SpaceType(cs.Spacing[2*i+1])
 		l.space(cs.Spacing[2*i])
-		if d := c05Dec(cs.Decs[2*i], serial+1); d != "" {
+		if ds := c05Dec(cs.Decs[2*i], serial+1); ds != nil {
 			serial++
-			nd.Start.Append(d)
-			l.dec(d)
+			for _, d := range ds {
+				nd.Start.Append(d)
+				l.dec(d)
+			}
 		}
 		l.text(texts[i] + term)
-		if d := c05Dec(cs.Decs[2*i+1], serial+1); d != "" {
+		if ds := c05Dec(cs.Decs[2*i+1], serial+1); ds != nil {
 			serial++
-			nd.End.Append(d)
-			l.dec(d)
+			for _, d := range ds {
+				nd.End.Append(d)
+				l.dec(d)
+			}
 		}
 		l.space(cs.Spacing[2*i+1])
 	}
